@@ -114,10 +114,23 @@ def run(res):
         chdir = os.path.join(work, "s%d" % i, "ch")
         snaps = []
 
-        def hook(when, j, op, w, before=None, rep=None, chdir=chdir, snaps=snaps):
+        live = [None]
+
+        def hook(when, j, op, w, before=None, rep=None, chdir=chdir, snaps=snaps, live=live, cfg=cfg):
             if when == "before" and op[0] == "session":
                 w.close()
                 snaps.append(final_hashes(chdir))
+                # a reader kept alive across the sessions: after every session it reads from well before to well
+                # after what exists (also where no subdirectory exists yet); at the end it must see the union
+                try:
+                    if live[0] is None:
+                        live[0] = digital_rf.DigitalRFReader(os.path.dirname(chdir))
+                    b = live[0].get_bounds("ch")
+                    if b[0] is not None:
+                        pfile = max(1, cfg.per_file())
+                        live[0].read(max(0, b[0] - 3 * pfile), b[1] + 8 * pfile, "ch")
+                except Exception:  # noqa  (judged at the end)
+                    pass
         reports, w = wl.run_impl(cfg, ops, chdir, hook=hook)
         files = wl.dump_files(chdir)
         mrep, mfiles = wl.parse_model(out, len(ops))
@@ -199,6 +212,14 @@ def run(res):
             b = rd.get_bounds("ch")
             if stored and (b[0], b[1]) != (min(stored), max(stored)):
                 res.violation("bounds-not-union", "bounds are not those of the union of the sessions", hist, [min(stored), max(stored)], list(b))
+            if stored and live[0] is not None:
+                fresh = rd.read(min(stored), max(stored), "ch")
+                old_r = live[0].read(min(stored), max(stored), "ch")
+                res.count("reader-kept-across-sessions")
+                if [(int(k), len(v)) for k, v in sorted(fresh.items())] != [(int(k), len(v)) for k, v in sorted(old_r.items())]:
+                    res.violation("long-lived-reader-misses-later-session", "a reader kept alive across the sessions (it read after "
+                                  "every session, also beyond the data) does not return the union of all sessions", hist,
+                                  [(int(k), len(v)) for k, v in sorted(fresh.items())], [(int(k), len(v)) for k, v in sorted(old_r.items())])
         except Exception as e:  # noqa
             res.violation("reader-fails-on-multi-session", "reader fails on a multi-session channel", hist, "ok", repr(e)[:200])
 
